@@ -213,6 +213,7 @@ def gen_case(seed, tier, prop="C17"):
             "cut": cut, "flip": flip, "eager": rng.random() < 0.2, "sched_seed": rng.getrandbits(32),
             # the writer stays idle (no close, no further send) until the peer has read everything it was sent
             "wait_ack": rng.random() < 0.5,
+            "rtimeouts": rng.choice([[None], [None], [None, 0, None], [0, 0.0625, None, 0.125]]),
             "via": {"client": rng.choice(["wrap", "wrap", "connectable"]), "server": rng.choice(["wrap", "wrap", "listener"])}}
 
 
@@ -252,6 +253,7 @@ class TLSRun:
         std = c["std"]
         sent = {"c2s": b"".join(payload("c2s", c["c2s"])), "s2c": b"".join(payload("s2c", c["s2c"]))}
         rs = c["recv_sizes"]
+        rtimeouts = c.get("rtimeouts") or [None]
         if sum(c["c2s"]) + sum(c["s2c"]) > 20000:
             rs = [max(m, 100) for m in rs]
         got_all = {"c2s": Event(), "s2c": Event()}
@@ -267,7 +269,16 @@ class TLSRun:
                 while to_end or len(got) < expect_len:
                     m = rs[k % len(rs)]
                     k += 1
-                    d = await stream.receive(m)
+                    # receive() under a deadline (a seeded subset of the calls): a receive that is cancelled must not
+                    # have taken anything out of the stream - the retry continues exactly where the stream was
+                    tmo = rtimeouts[k % len(rtimeouts)] if len(got) < expect_len else None
+                    d = None
+                    while d is None:
+                        with move_on_after(tmo) as rsc:
+                            d = await stream.receive(m)
+                        if d is None:
+                            stats["cancel_receive"] += 1
+                            tmo = None if stats["cancel_receive"] % 3 == 0 else tmo
                     if not d or len(d) > m:
                         self.v("chunk", f"{name}: receive({m}) returned {len(d)} bytes")
                     got += d
